@@ -148,7 +148,7 @@ def _coq_deps(rel, seen=None):
         return seen
     seen.add(rel)
     text = strip_coq_comments(open(os.path.join(COQ, rel)).read())
-    for m in re.finditer(r'Require\s+(?:Import\s+|Export\s+)?((?:[\w\.]+\s*)+?)\.(?=\s|$)', text):
+    for m in re.finditer(r'Require\s+(?:Import\s+|Export\s+)?([\w\.]+(?:\s+[\w\.]+)*)\.(?=\s|$)', text):
         for mod in m.group(1).split():
             mod = mod.strip()
             if mod.startswith('Supp.'):
